@@ -118,6 +118,26 @@ SEEDS = {
     "C09l": ("C09", "_cmd_coverage passes min_mapq - 1 to do_coverage in pileup mode", "`coverage -q N` (N >= 1, no --count) and a read with MAPQ N-1", "caught", None),
     "C13l": ("C13", "_cmd_access forwards -s only when it is truthy (0 falls back to do_access's default 5000)", "`access -s 0` on a FASTA with gaps shorter than 5000", "caught", None),
     "C15l": ("C15", "_cmd_call no longer passes diploid_parx_genome to center_all", "`call --center EST --diploid-parx-genome G` on a table with PAR-X bins", "missed", "C15's centring cases now also go through `call --center ... -m none` (command-line tier)"),
+    "C01m": ("C01", "chr_x_label returns 'chrX' only when a row named chrX exists (chr_y_label derives from it)", "a chr-named table with chrY rows and no chrX row, clonal call with purity < 1", "missed", "C01 and C02 now drop every chromosome-X row from one table in six"),
+    "C02m": ("C02", "GenomicArray.__setitem__ turns a boolean row mask into row labels before .loc", "BAF given, a no-BAF segment, and repeated row labels (per-chromosome pieces concatenated without renumbering)", "missed", "C01 (without filters) and C02 now give one table in eight labels that restart at 0 on every chromosome"),
+    "C03m": ("C03", "segment_mean's skip_low default flipped to True (only segmentation/none relies on the default)", "method none, skip_low off, a null-coverage bin with weight", "caught", None),
+    "C04m": ("C04", "sorter_chrom split by a regex whose text part stops at the next digit", "two contigs of one family (chr1_KI270706v1_random / ...707...) with interleaving starts", "missed", "C04 now appends such a pair of unplaced contigs to one panel in five"),
+    "C05m": ("C05", "load_sample_block compares start, end and gene column-wise and no longer the chromosome", "a coverage file with the same coordinates under the other naming style", "missed", "C05's negatives now include a file restyled chr1 <-> 1"),
+    "C06m": ("C06", "by_shared_chroms fast path whenever the first table has one chromosome (empty frame instead of None for the other)", "a.subtract(b) with a on one chromosome (>= 2 rows) and b non-empty elsewhere", "caught", None),
+    "C07m": ("C07", "by_shared_chroms fast path tested with .all() on the other table's chromosome column (true for an empty table)", "an empty searched table and >= 2 queries on one chromosome, keep_empty on", "caught", None),
+    "C08m": ("C08", "sorter_chrom strips the prefix with str.removeprefix('chr') (case-sensitive)", "Chr1 / CHR1 style names with a number >= 10 or X/Y/M", "missed", "C08 now also draws the Chr and CHR prefixes"),
+    "C09m": ("C09", "--count filters reads with a flag mask that also holds 0x800 (supplementary)", "a supplementary read that is otherwise countable", "caught", None),
+    "C10m": ("C10", "ensure_path finds earlier copies with an unescaped glob of the path", "a path with [...] in a file or directory name and >= 3 writes", "missed", "C10's write cycles now use names with brackets, spaces, * ? {} and several dots"),
+    "C11m": ("C11", "savgol widens its window to ceil(total_width/100) (even windows shift the signal)", "hmm-germline, >= 2 chromosomes with ~1500+ bins in total and one of > 700 bins", "caught", None),
+    "C12m": ("C12", "resize_ranges drops zero-width rows before padding", "antitarget given a bait table with a zero-width row away from other baits", "missed", "C12 now also feeds antitarget the raw bait table (a third of the cases)"),
+    "C13m": ("C13", "_subtraction keeps pieces with end >= start", "exclude rows that abut exactly inside an accessible region", "caught", None),
+    "C14m": ("C14", "squash_region drops zero-weight rows of a merged run before summing", "a merged run with a zero-weight segment that has probes", "caught", None),
+    "C15m": ("C15", "every PAR start in params raised by one (1-based GRC numbers)", "a chrX bin starting exactly at a PAR start, with a PAR genome", "missed", "C15's PAR bins now include ones flush with each documented boundary"),
+    "C16m": ("C16", "by_shared_chroms fast path with .any() on the other table's chromosomes", "genemetrics with segments on one chromosome and bins on several", "missed", "C16 now restricts one segment table in four to a single chromosome"),
+    "C17m": ("C17", "bintest recognises off-target bins by the name Antitarget only (Background no longer)", "bintest --target on a table whose off-target bins are called Background", "caught", None),
+    "C18m": ("C18", "heterozygous() returns self on an all-het table and baf_by_ranges writes the mirrored / boosted values in place", "a BAF question with above_half / tumor_boost followed by another question on the same table", "missed", "C18 now asserts that baf_by_ranges leaves the variant table untouched"),
+    "C19m": ("C19", "biweight_location's convergence tolerance made relative to the estimate's magnitude", "data centred away from zero whose iteration needs more than one step", "caught", None),
+    "C20m": ("C20", "chr_x_label by presence of a chrX row (same edit as C01m)", "export bed --show variant / export vcf on chr-named segments with chrY and no chrX", "caught", None),
 }
 
 
